@@ -36,6 +36,9 @@ func (Engine) Strategy(p simkit.Plan, r *rand.Rand) simkit.Strategy {
 		}
 		return &simkit.RandomWalk{R: simkit.NewSM64(r.Uint64()), Stick: stick, Mix: 0.5}
 	}
+	if pl.Strategy >= 4 {
+		return simkit.NewStall(simkit.NewSM64(r.Uint64()), 4+len(pl.Ops), 28, 0.8, 0.5)
+	}
 	return simkit.NewPCT(simkit.NewSM64(r.Uint64()), pl.Strategy, 60+len(pl.Ops)*12, 0.5)
 }
 
